@@ -45,9 +45,36 @@ def actual_list(nodes, in_arg=False):
     return docgrammar._merge_chars(out)
 
 
-def actual_arg(a):
+def exact_chars(a):
+    """verbatim material is compared character for character (everything else modulo blanks)"""
+    k = kind(a)
+    if k == 'chars':
+        return ['vchars', a.chars]
+    if k == 'group':
+        d = a.delimiters
+        items = a.nodelist.nodelist if a.nodelist is not None else []
+        return ['group', d[0], d[1], [exact_chars(x) for x in items]]
+    if k == 'list':
+        items = [exact_chars(x) for x in a.nodelist]
+        return items[0] if len(items) == 1 else ['list', items]
+    return actual(a)
+
+
+def verbatim_flags(n):
+    nad = n.nodeargd
+    if nad is None:
+        return []
+    specs = list(getattr(nad, 'arguments_spec_list', None) or [])
+    legacy = type(nad).__name__ in ('ParsedVerbatimArgs',)
+    return [legacy or (i < len(specs) and str(getattr(specs[i], 'parser', None)).startswith('v'))
+            for i in range(len(nad.argnlist or []))]
+
+
+def actual_arg(a, exact=False):
     if a is None:
         return None
+    if exact:
+        return exact_chars(a)
     k = kind(a)
     if k == 'list':
         items = actual_list(a.nodelist)
@@ -78,11 +105,15 @@ def actual(n):
         return ['specials', n.specials_chars]
     if k == 'macro':
         argn = n.nodeargd.argnlist if n.nodeargd is not None else ['<no nodeargd>']
-        return ['macro', n.macroname, [actual_arg(a) for a in argn]]
+        vf = verbatim_flags(n)
+        return ['macro', n.macroname, [actual_arg(a, i < len(vf) and vf[i])
+                                       for i, a in enumerate(argn)]]
     if k == 'environment':
         argn = n.nodeargd.argnlist if n.nodeargd is not None else ['<no nodeargd>']
         body = n.nodelist.nodelist if n.nodelist is not None else []
-        return ['env', n.environmentname, [actual_arg(a) for a in argn], actual_list(body)]
+        vf = verbatim_flags(n)
+        return ['env', n.environmentname, [actual_arg(a, i < len(vf) and vf[i])
+                                           for i, a in enumerate(argn)], actual_list(body)]
     return ['unknown', k]
 
 
